@@ -199,8 +199,119 @@ def make_combine():
     return factory
 
 
+# ---------------------------------------------------------------- inline directives stay with their own file
+DIRECTIVES = [
+    "max_line_length:20",
+    "exclude_rules:LT01",
+    "indentation:tab_space_size:2",
+    "layout:type:comma:line_position:leading",
+    "rules:capitalisation.keywords:capitalisation_policy:upper",
+    "rules:layout.long_lines:ignore_comment_lines:true",
+    "templater:jinja:apply_dbt_builtins:false",
+]
+PLAIN = "select a,b from t\n"
+_ISO_DIR = None
+
+
+def iso_tree():
+    global _ISO_DIR
+    if _ISO_DIR is None:
+        import atexit
+        _ISO_DIR = os.path.realpath(tempfile.mkdtemp(prefix="c27i_"))
+        atexit.register(shutil.rmtree, _ISO_DIR, True)
+        for i, d in enumerate(DIRECTIVES):
+            open(os.path.join(_ISO_DIR, f"a{i}.sql"), "w").write(f"-- sqlfluff:{d}\n" + PLAIN)
+        open(os.path.join(_ISO_DIR, "b.sql"), "w").write(PLAIN)
+    return _ISO_DIR
+
+
+def _plain(cfg):
+    import copy
+    out = {}
+    for k, v in cfg._configs.items():
+        if k == "core":
+            v = {kk: vv for kk, vv in v.items() if kk not in ("dialect_obj", "templater_obj")}
+        out[k] = copy.deepcopy(v)
+    return out
+
+
+def _viol(linted):
+    return sorted((v.rule_code(), v.line_no, v.line_pos) for v in linted.get_violations())
+
+
+def iso_case(n_first, route, d_idx):
+    """Process n_first files carrying inline directive d_idx through `route` with ONE shared config/linter, then an
+    undecorated file; report what leaked."""
+    import sqlfluff
+    d = iso_tree()
+    cfg = FluffConfig(overrides={"dialect": "ansi"})
+    before = _plain(cfg)
+    lin = Linter(config=cfg)
+    text_a = f"-- sqlfluff:{DIRECTIVES[d_idx]}\n" + PLAIN
+    fresh_b = _viol(Linter(config=FluffConfig(overrides={"dialect": "ansi"})).lint_string(PLAIN, fname="b.sql"))
+    for _ in range(n_first):
+        if route == "parse_string":
+            lin.parse_string(text_a, fname="a.sql")
+        elif route == "lint_string":
+            lin.lint_string(text_a, fname="a.sql")
+        elif route == "simple_api":
+            sqlfluff.lint(text_a, config=cfg)
+        elif route == "lint_paths":
+            lin.lint_paths((os.path.join(d, f"a{d_idx}.sql"),))
+        elif route == "child_config":
+            child = cfg.make_child_from_path(os.path.join(d, f"a{d_idx}.sql"))
+            child.process_raw_file_for_config(text_a, "a.sql")
+        elif route == "copy":
+            cp = cfg.copy()
+            cp.process_raw_file_for_config(text_a, "a.sql")
+    problems = []
+    if _plain(cfg) != before:
+        ch = [k for k in before if _plain(cfg).get(k) != before[k]] + [k for k in _plain(cfg) if k not in before]
+        problems.append(f"the shared configuration changed in section(s) {sorted(set(ch))}")
+    if _plain(lin.config) != before:
+        problems.append("the linter's configuration changed")
+    got_b = _viol(lin.lint_string(PLAIN, fname="b.sql"))
+    if got_b != fresh_b:
+        problems.append(f"a later undecorated file reports {got_b}, alone it reports {fresh_b}")
+    return problems
+
+
+ROUTES = ["parse_string", "lint_string", "simple_api", "lint_paths", "child_config", "copy"]
+
+
+def make_iso():
+    def factory(excluded=frozenset()):
+        def harness(c):
+            route = choose(c, "route", ROUTES)
+            d_idx = int(fresh_int(c, "directive", 0, len(DIRECTIVES) - 1))
+            n_first = int(fresh_int(c, "files_with_directive_before", 0, 2))
+            if n_first:
+                c.witness("directive_then_plain")
+            if ":" in DIRECTIVES[d_idx].split(":", 1)[1].rsplit(":", 1)[0] and n_first:
+                c.witness("nested_directive")
+            return not iso_case(n_first, route, d_idx)
+        return harness
+    return factory
+
+
+def replay_iso(cex):
+    route = ROUTES[int(cex.get("route", 0))]
+    d_idx, n_first = int(cex.get("directive", 0)), int(cex.get("files_with_directive_before", 0))
+    p = iso_case(n_first, route, d_idx)
+    return (f"{n_first} file(s) starting with '-- sqlfluff:{DIRECTIVES[d_idx]}' processed via {route} with one shared config: "
+            + "; ".join(p)) if p else None
+
+
 def units(tier, seed):
-    return [
+    iso_tree()
+    return [Unit(name="c27.inline_isolation", functions=["sqlfluff.core.linter.linter.Linter.parse_string/lint_string/lint_paths/load_raw_file_and_config",
+                 "sqlfluff.api.simple.lint", "FluffConfig.copy/make_child_from_path/process_raw_file_for_config/process_inline_config/set_value"],
+                 bounds={"inline directive": DIRECTIVES, "route": ROUTES, "files carrying the directive before the plain one": "0..2"},
+                 make=make_iso(), replay=replay_iso,
+                 stubs=["none: real strings / real files, one shared FluffConfig and Linter; the compared state is the whole "
+                        "config mapping (minus the dialect/templater objects) and the violations of a later undecorated file"],
+                 outside=["directives not in the pool"], witnesses_required=["directive_then_plain", "nested_directive"],
+                 sharded=True, timeout_s=600)] + [
         Unit(name=f"c27.precedence[<= {k} layers set values]",
              functions=["sqlfluff.core.config.loader.load_config_up_to_path/load_config_at_path", "sqlfluff.core.config.file.load_config_file_as_dict (@cache)",
                         "FluffConfig.from_root/from_path/make_child_from_path/set_value/process_raw_file_for_config/process_inline_config",
